@@ -210,6 +210,27 @@ func fltCase(w *gal.Writer, name, op, cver, ver string, provs []string, clean bo
 		Class: class, Desc: map[string]any{"constraint": name + op + cver, "candidate_version": ver, "provides": provs, "passes_filter": obs}})
 }
 
+// a shared-library provide against a shared-library constraint: both strings go through ResolvePackageNameVersionPin
+func soCase(w *gal.Writer, name, op, cver, pver, class string) {
+	pc := apk.ResolvePackageNameVersionPin(name + op + cver)
+	_, pv, _, _ := resolveObs(name + "=" + pver)
+	obs := 3
+	if v, err := apk.ParseVersion(pv); err == nil {
+		ok, serr := pc.SatisfiedBy(v)
+		switch {
+		case serr != nil:
+			obs = 2
+		case ok:
+			obs = 1
+		default:
+			obs = 0
+		}
+	}
+	w.Add(gal.Case{Term: fmt.Sprintf("{| so_name := %s; so_op := %s; so_cver := %s; so_pver := %s; so_obs := %s |}",
+		gal.Str(name), gal.Str(op), gal.Str(cver), gal.Str(pver), gal.Z(int64(obs))),
+		Class: class, Desc: map[string]any{"constraint": name + op + cver, "provide": name + "=" + pver, "satisfied": obs}})
+}
+
 func resCase(w *gal.Writer, s, class string) {
 	n, v, p, d := resolveObs(s)
 	w.Add(gal.Case{Term: fmt.Sprintf("{| r_str := %s; r_name := %s; r_ver := %s; r_dep := %s; r_pin := %s |}", gal.Str(s), gal.Str(n), gal.Str(v), gal.Z(int64(d)), gal.Str(p)),
@@ -227,7 +248,7 @@ func main() {
 	out := flag.String("out", "", "cases directory")
 	seed := flag.Uint64("seed", 1, "seed")
 	tier := flag.String("tier", "quick", "tier")
-	stage := flag.String("stage", "parse", "parse|compare|constraint|resolve|filter")
+	stage := flag.String("stage", "parse", "parse|compare|constraint|resolve|filter|soname")
 	_ = flag.String("replay", "", "unused")
 	flag.Parse()
 	scale := 1
@@ -382,6 +403,32 @@ func main() {
 				continue
 			}
 			fltCase(w, "a", gal.Pick(r, ops), cv, v, []string{"a=" + mutate(r, genParts(r, true).String())}, false, "malformed")
+		}
+	case "soname":
+		w = &gal.Writer{Dir: *out, Require: "From Apko Require Import Corr.C03.", Type: "so_case", Check: "check_so", Shard: 500}
+		ops := []string{"=", ">", "<", ">=", "<=", "~"}
+		sonames := []string{"so:libx.so.1", "so:libc.musl-x86_64.so.1", "so:libfoo.so.0.3"}
+		vers := []string{"1", "6", "1.2", "1.1", "2.0", "0.1.2", "1.2.3", "1.10"}
+		rels := []string{"", "-r0", "-r1", "-r3", "-r10"}
+		for _, op := range ops {
+			for _, cv := range vers[:5] {
+				for _, pv := range vers[:5] {
+					for _, cr := range rels {
+						for _, pr := range rels {
+							soCase(w, sonames[0], op, cv+cr, pv+pr, "grid")
+						}
+					}
+				}
+			}
+		}
+		for i := 0; i < 600*scale; i++ {
+			small := r.Chance(3, 4)
+			cv := genParts(r, small)
+			pv := neighbour(r, cv, small)
+			soCase(w, gal.Pick(r, sonames), gal.Pick(r, ops), cv.String(), pv.String(), "structured")
+		}
+		for i := 0; i < 100*scale; i++ {
+			soCase(w, gal.Pick(r, sonames), gal.Pick(r, ops), mutate(r, genParts(r, true).String()), genParts(r, true).String(), "malformed")
 		}
 	case "resolve":
 		names := []string{"a", "foo-bar", "so:libc.so.6", "cmd:x", "pc:y+z", "py3.11-foo", "a.b_c"}
